@@ -16,6 +16,7 @@ KNOWN = {
     3: "C05-fragsize-zero-div",
     4: "C05-nackfrag-bitmap-overflow",
     5: "C05-mixed-readerid-truncation",
+    6: "C05-nackfrag-none-missing-panic",
 }
 RULE = ("one case = a scenario on a real RtpsStatefulWriter + RtpsStatefulReader pair: writes of payloads of "
         "size k*f-1, k*f, k*f+1 (f in 8, 9, 64, 1344, 65000 and random), deliveries of the writer's own datagrams "
@@ -209,6 +210,8 @@ def gen_mixed(r, f, n, rel=1):
     ev = [("D", 1, i, w) for i in range(k) for w in (1, 2) if r.random() < 0.6]
     r.shuffle(ev)
     ops += ev
+    if r.random() < 0.5:
+        ops += [("H", 1, 1, 1, 0)]
     return case(rel, 2, f, ops, False)
 
 
@@ -316,6 +319,12 @@ def corpus():
         case(1, 2, 8, [("W", p29), ("D", 1, 0, 1), ("D", 1, 1, 1), ("D", 1, 0, 2), ("D", 1, 1, 2)], False),
         # 300 fragments, one received: the reader panics building its NACK_FRAG
         gen_bitmap(r, 300, [0]),
+        # two readers, both copies of fragment 2 before fragment 1: never reassembled, heartbeat reply panics
+        case(1, 2, 8, [("W", bytes(range(1, 10))), ("D", 1, 1, 1), ("D", 1, 1, 2), ("D", 1, 0, 1), ("D", 1, 0, 2),
+                       ("H", 1, 1, 1, 0)], False),
+        # foreign fragments: numbers 1..4 all present, one extra copy with fragments_in_submessage 2
+        case(1, 1, 8, [("X", 1, 1, 4, 1, 1, 4, b"\xde"), ("X", 1, 1, 3, 1, 1, 4, b"\x68"), ("X", 1, 1, 2, 1, 1, 4, b"\x62"),
+                       ("X", 2, 1, 1, 2, 1, 4, b""), ("X", 1, 1, 1, 1, 1, 4, b"\x67"), ("H", 1, 1, 1, 0)], False),
     ]
 
 
@@ -534,7 +543,7 @@ MANIFEST = {
              "that received every fragment holds the sample; no panic outside two known classes. The repair half of "
              "the property is FALSE on the code and is proved false on the model for all histories (the reader's "
              "NACK_FRAG count is always 0 and is always filtered; a lost fragment is never resent; an accepted NACK_FRAG "
-             "is answered with fragment n+1), each confirmed on the real code (5 known findings). The model is tied to "
+             "is answered with fragment n+1), each confirmed on the real code (6 known findings). The model is tied to "
              "the code by driving the real RtpsStatefulWriter / RtpsStatefulReader on generated scenarios and comparing "
              "every observation with the model inside Coq; the property oracle judges the implementation's own trace."),
     "note": ("Trusted: Coq kernel + vm_compute; hand model FragModel.v (checked against the code on every run); the harness "
@@ -542,6 +551,7 @@ MANIFEST = {
              "are compared by length + 63-bit FNV-1a digest computed on both sides (primitive Uint63 in FragCorr.v only). "
              "Axioms: none. Not covered: inline QoS / key-only fragments, non-ALIVE changes, fragment sizes above 65535, "
              "the datagram codec itself (C07). Known findings: C05-nackfrag-count-zero, C05-nackfrag-off-by-one, "
-             "C05-fragsize-zero-div, C05-nackfrag-bitmap-overflow, C05-mixed-readerid-truncation."),
+             "C05-fragsize-zero-div, C05-nackfrag-bitmap-overflow, C05-mixed-readerid-truncation, "
+             "C05-nackfrag-none-missing-panic."),
     "technique": "Coq proof (list induction, invariants over all histories) + differential correspondence with oracle evaluated in Coq",
 }
